@@ -331,12 +331,12 @@ class C28(Property):
               f"{pp(b.get('filters', []))}", "ok", "bind")
         # ---- real constructor ----
         try:
-            with time_limit(5):
+            with time_limit(15):
                 wc = WorkflowConfig("wf", config)
             res = "ok"
         except Hang:
             wc, res = None, "HANG"
-            ctx.fail("wraps:check-hangs", f"WorkflowConfig.__init__ did not return within 5 s on deployments {deps}", {"case": case})
+            ctx.fail("wraps:check-hangs", f"WorkflowConfig.__init__ did not return within 15 s on deployments {deps}", {"case": case})
         except Exception as e:  # noqa: BLE001
             wc, res = None, exc_kind(e)
         q("init", res, "WorkflowConfig.__init__")
@@ -354,7 +354,7 @@ class C28(Property):
             for kind, path in case["queries"]:
                 qparts = parts_of(path)
                 try:
-                    with time_limit(5):
+                    with time_limit(15):
                         bc = get_binding_config(path, kind, wc)
                     real = ";".join(f"{hx(t.deployment.name)}:{hx(norm_wd(t))}:{o(t.deployment.workdir)}:{t.locations}"
                                     for t in bc.targets) + "|" + (",".join(hx(f.name) for f in bc.filters) or "~")
